@@ -53,6 +53,14 @@ structure DevPropsSt where
   pv : PvSt := {}
   fr : FrSt := {}
 
+/-- what the search family remembers: the links as the ACCEPTED operations set them (entity id ↦ target id), so that the
+    back-reference rules do not have to believe the getters `metadata()` / `link()` / `sources()` of the dump -/
+structure SearchSt where
+  md : List (String × Option String) := []        -- holder id ↦ section id set as metadata (none = removed)
+  seclink : List (String × Option String) := []   -- section id ↦ linked section id
+  srcs : List (String × List String) := []        -- holder id ↦ ids of the attached sources
+  untracked : List String := []                      -- entities whose links were changed in a way the tracker does not follow
+
 structure DState where
   axis : AxisDesc := .none
   arr : Option ArrSt := none
@@ -60,5 +68,6 @@ structure DState where
   smodel : StoreModel.MState := {}             -- the Lean store model replayed alongside (store family)
   fileFam : FileFamSt := {}       -- modes / crash / ids families (C09 C11 C12)
   dp : DevPropsSt := {}
+  search : SearchSt := {}
 
 end Nix.Drive
